@@ -124,6 +124,49 @@ func compile(p Pkg, listing []string) (res string) {
 	return sb.String()
 }
 
+// compileSameAST parses the package once and lowers the SAME syntax trees twice (what a tool that keeps parsed
+// files does); both results are returned. Lowering must not leave the trees in a state that changes the output.
+func compileSameAST(p Pkg) (first, second string) {
+	defer func() {
+		if r := recover(); r != nil {
+			second = fmt.Sprintf("ESCAPED-PANIC: %v", r)
+		}
+	}()
+	fset := token.NewFileSet()
+	dir := "/p"
+	files := map[string]string{}
+	for n, s := range p.Files {
+		files[filepath.Join(dir, n)] = s
+	}
+	fs := memfs.New(map[string][]string{dir: p.names()}, files)
+	pkgs, err := parser.ParseFSDir(fset, fs, dir, parser.Config{ClassKind: classKind, Mode: parser.ParseComments})
+	if err != nil {
+		return "", ""
+	}
+	var names []string
+	for n := range pkgs {
+		names = append(names, n)
+	}
+	sort.Strings(names)
+	run := func() string {
+		var sb strings.Builder
+		for _, n := range names {
+			conf := &cl.Config{Fset: fset, Importer: imp, LookupClass: lookupClass, RelativeBase: "/"}
+			out, err := cl.NewPackage("", pkgs[n], conf)
+			if err != nil {
+				fmt.Fprintf(&sb, "PACKAGE %s ERRORS:\n%s\n", n, err.Error())
+				continue
+			}
+			fmt.Fprintf(&sb, "PACKAGE %s\n", n)
+			writeAll(&sb, out)
+		}
+		return sb.String()
+	}
+	first = run()
+	second = run()
+	return
+}
+
 func writeAll(sb *strings.Builder, out *gogen.Package) {
 	var b bytes.Buffer
 	if err := out.WriteTo(&b); err != nil {
@@ -291,6 +334,8 @@ func evalCase(ps []Pkg, k Case) *engine.Failure {
 		got, _ = runWith(p, p.names(), nil)
 	case "fresh-process":
 		got = freshProcess(p)
+	case "same-ast":
+		canon, got = compileSameAST(p)
 	}
 	if got == canon {
 		return nil
@@ -309,7 +354,8 @@ func differs(k Case, canon, got string) *engine.Failure {
 	}
 	return &engine.Failure{Key: key + "/" + cls, What: "the compiler's result depends on " + map[string]string{
 		"map-order": "the iteration order of a map", "listing": "the order in which the directory lists the files",
-		"repeat": "what was compiled before in the same process", "fresh-process": "whether the process is fresh"}[k.Kind],
+		"repeat": "what was compiled before in the same process", "fresh-process": "whether the process is fresh",
+		"same-ast": "whether the syntax trees have been lowered before"}[k.Kind],
 		Detail: fmt.Sprintf("package %s, case %+v\n%s", k.Pkg, k, firstDiff(canon, got))}
 }
 
@@ -457,6 +503,18 @@ func main() {
 			if got != canon {
 				k := Case{Pkg: p.Name, Kind: "repeat", Between: q.Name}
 				c.Violate(k, differs(k, canon, got))
+			}
+		}
+		// the same syntax trees lowered twice
+		if !strings.HasPrefix(p.Name, "xbuild-") {
+			r1, r2 := compileSameAST(p)
+			transitions += 2
+			c.Eval(1)
+			c.NontrivialN(1)
+			c.Hist("same-ast-recompilations", 1)
+			if r1 != r2 {
+				k := Case{Pkg: p.Name, Kind: "same-ast"}
+				c.Violate(k, differs(k, r1, r2))
 			}
 		}
 		// fresh process (quick: every third package of the pool; thorough: all)
